@@ -6,13 +6,16 @@ exit; (B) all interleavings of N such paths: mutual exclusion, lock free at the 
 (C) reactive callers over any device with failures anywhere: mutual exclusion, serialisability
 (wire trace = whole operations in acquisition order, every caller's outcome = its own sequential
 outcome), lock released on every outcome, no deadlock, channel_lock off is a no-op; (D) the lock object
-across re-opens of the connection: nothing but __init__ binds channel_lock (ast), so one holder at a
-time through any re-opens / retries; refuted for a lock recreated by open().
+across re-opens of the connection and commandeer(): nothing but the channel's __init__ binds channel_lock
+(ast over the channel classes AND every other module of the package), so one holder at a time through any
+re-opens / retries; refuted for a lock recreated by open().
 tie: Gen_Lock.v regenerated on every run + correspondence `lock-schedules`: the REAL Channel (threads)
 and AsyncChannel (tasks) under a controlled scheduler (c19_sched.py), schedules enumerated, failures and
 timeouts injected, callers cancelled / timed out with the connection staying up and the others going on
 (whatever task the ended operation left behind keeps being scheduled and observed), connection lost +
-re-opened + operation retried while others are queued; every observed trace is replayed through the
+re-opened + operation retried while others are queued, two-connection histories (a real Driver built with
+channel_lock=True commandeers / is commandeered by a Driver built with or without it, then the callers
+run on it); every observed trace is replayed through the
 model's executable step function (vm_compute, Lock.check_run; re-open runs also Lock.oreplay) and judged
 by an independent oracle."""
 import json
@@ -25,7 +28,8 @@ from .common import coq_bool, coq_bytes, coq_list
 
 LEVEL = "proof"
 SOURCES = ["scrapli/channel/sync_channel.py", "scrapli/channel/async_channel.py",
-           "scrapli/channel/base_channel.py", "scrapli/decorators.py"]
+           "scrapli/channel/base_channel.py", "scrapli/decorators.py",
+           "scrapli/driver/base/sync_driver.py", "scrapli/driver/base/async_driver.py", "scrapli/driver/base/base_driver.py"]
 
 OPS = ["get_prompt", "send_input", "send_input_and_read", "send_inputs_interact"]
 
@@ -204,6 +208,15 @@ def oracle(scn, obs):
         elif strict[c] == "prefix":
             if mine != s["script"][:len(mine)]:
                 bad.append(("wrong-wire", "failing caller %d's wire events are not a prefix of its solo operation" % c))
+    # a connection built with channel_lock=True serialises its callers for its whole life: whatever happened to
+    # it before the callers came (it commandeered another connection / was commandeered) and whatever happens
+    # while they run (failures, re-opens), its channel refers to a lock object of the right kind
+    for when, text in (("lock_at_start", "when the callers start"), ("lock_at_end", "when the run ends")):
+        if when in obs and obs[when] != want_type:
+            bad.append(("lock-unbound", "the connection was built with channel_lock=True and %s its channel's channel_lock is %s%s"
+                        % (text, obs[when], " (after the commandeer history %s)" % json.dumps(scn["commandeer"], sort_keys=True)
+                           if scn.get("commandeer") else "")))
+            break
     return bad
 
 
@@ -344,6 +357,8 @@ def reopen_term(scn, obs):
     """the run as a trace of Lock.v layer D (lock identity across re-opens): the channel is opened once
     before the callers start; a caller binds to the channel's lock object when it enters its lock section"""
     tr = ["OOpen"]
+    if scn.get("commandeer"):
+        tr.append("OOpen")          # commandeer(): a step of the connection's life outside any lock section
     for e in obs["events"]:
         k, c = e[0], e[1]
         if k == "acq":
@@ -533,7 +548,7 @@ def run(rep):
             dist["skipped_over_budget"] = dist.get("skipped_over_budget", 0) + 1
             return
         dist["scenarios"] += 1
-        nfound = 0
+        nfound, found_wired = 0, False
         for c in range(len(scn["callers"])):
             if not solo(scn, c)["ok"]:
                 rep.broken.append("solo run of %s failed" % scn["callers"][c]["op"])
@@ -560,9 +575,13 @@ def run(rep):
                 rep.notes.append("wedged on %s choices %s" % (json.dumps(scn), ch))
                 return
             bad = oracle(scn, obs) if judge else []
-            if bad and nfound < 2:
+            # the first two failing schedules, and the first one whose failure shows ON THE WIRE if those do not
+            wired = any(sig == "interleaved" for sig, _ in bad)
+            if bad and (nfound < 2 or (wired and not found_wired and nfound < 3)):
                 nfound += 1
-                violations.append((bad[0][0], "; ".join(t for _, t in bad[:3]),
+                found_wired = found_wired or wired
+                shown = bad[:3] + [b for b in bad[3:] if b[0] == "lock-unbound"]
+                violations.append((bad[0][0], "; ".join(t for _, t in shown),
                                    {"suite": "lock-schedules", "scenario": scn, "choices": ch, "label": label,
                                     "failures": [list(b) for b in bad], "events": obs["events"], "results": obs["results"],
                                     "rerun": "./check C19 --replay <this file>"}))
@@ -570,7 +589,10 @@ def run(rep):
             if obs["verdict"] is None:
                 terms.append(case_term(scn, obs))
                 cases.append({"scenario": scn, "choices": ch, "label": label, "oracle_bad": bool(bad)})
-                if label == "reopen" and scn["lock"]:
+                # layer D: every re-open run; of the commandeer histories those with a re-open and a sample of the others
+                # (without a re-open their layer-D traces are plain acquire / event / release sequences)
+                if scn["lock"] and (label in ("reopen", "commandeer+reopen")
+                                    or (scn.get("commandeer") and dist["by_fault"][label] <= (400 if thorough else 60))):
                     oterms.append(reopen_term(scn, obs))
                     ocases.append(cases[-1])
             if len(rep.samples) < 3 and len(scn["callers"]) > 1 and multi > 2:
@@ -612,6 +634,37 @@ def run(rep):
                 for chunk, variant in ((0, 0), (9, 1)) if (thorough or (OPS.index(a) + OPS.index(b)) % 2 == 0) else ((0, 0),):
                     scn = make_scenario(stack, True, [a, b], chunk=chunk, variant=variant)
                     do_scenario(scn, "none", 600 * effort, 40 * effort)
+    # F8: two-connection histories.  Connection B (built with channel_lock=True) commandeers connection A (built with
+    # / without channel locking; the real Driver.commandeer / AsyncDriver.commandeer), then 2..3 callers run
+    # concurrently on B -- or on A, the commandeered connection, where A was built with the lock --: the
+    # connection built with channel_lock=True serialises its callers for its whole life, whatever the other
+    # connection of the history was built with; also with an operation ended early / the connection lost,
+    # re-opened and the operation retried on the commandeering connection.
+    rng8 = random.Random("C19-commandeer-%s" % rep.seed)      # (own stream: derived from the seed only)
+    rng_main, rng = rng, rng8
+    for stack in stacks:
+        pairs8 = [(a, b) for a in OPS for b in OPS]
+        rng8.shuffle(pairs8)
+        hist = [{"a_lock": False, "b_lock": True, "on": "B"}, {"a_lock": True, "b_lock": True, "on": "B"},
+                {"a_lock": True, "b_lock": True, "on": "A"}, {"a_lock": True, "b_lock": False, "on": "A"}]
+        for i, (a, b) in enumerate(pairs8 if (thorough or tie_broken) else pairs8[:2]):
+            for h in (hist if (thorough or tie_broken or i == 0) else [hist[0], hist[1 + rng8.randrange(3)]]):
+                scn = make_scenario(stack, True, [a, b], chunk=rng8.choice([0, 7, 9]), variant=rng8.randrange(2))
+                scn["commandeer"] = dict(h)
+                do_scenario(scn, "commandeer", 300 * effort, 30 * effort)
+        kinds = [rng8.choice(OPS) for _ in range(3)]
+        scn = make_scenario(stack, True, kinds, chunk=rng8.choice([0, 7]), variant=1)
+        scn["commandeer"] = dict(hist[rng8.randrange(2)])
+        do_scenario(scn, "commandeer", 120 * effort, 40 * effort)
+        scn = make_scenario(stack, True, [rng8.choice(OPS), rng8.choice(OPS)], chunk=rng8.choice([5, 7, 9]), variant=1)
+        scn["commandeer"] = dict(hist[0])
+        upd, label = rng8.choice(ended_early_variants(scn, rng8, False))
+        do_scenario(with_faults(scn, upd), "commandeer+" + label.split("@")[0], 200 * effort, 20 * effort)
+        scn = with_retry(make_scenario(stack, True, [rng8.choice(OPS), rng8.choice(OPS)], chunk=rng8.choice([0, 7]), variant=rng8.randrange(2)))
+        scn["commandeer"] = dict(hist[rng8.randrange(2)])
+        upd, label = rng8.choice(reopen_variants(scn, rng8, False))
+        do_scenario(with_faults(scn, upd), "commandeer+reopen", 200 * effort, 20 * effort)
+    rng = rng_main
     # F6: an operation ended from outside with the connection staying up (task cancelled / NO_TERMINATE timeout) at
     # a point of the operation, the other callers go on; output in several reads.  The observer (transport events
     # only by the lock holder) runs over the whole log: whatever a failed operation leaves behind (a shielded /
@@ -711,9 +764,11 @@ def run(rep):
     rep.rule = ("scenario = stack x 2..4 callers each one of get_prompt/send_input/send_input_and_read/send_inputs_interact "
                 "(own marker per caller) x read chunking x failure (none | k-th transport call of a caller raises, sticky or clean | "
                 "timeout at a parked read/write, closing or NO_TERMINATE | timeout while waiting for the lock | asyncio task cancelled at a "
-                "read / in the lock queue | connection lost + re-open (channel.close, transport.open, channel.open) and retry by the failing caller; "
+                "read / in the lock queue | connection lost + re-open (channel.close, transport.open, channel.open) and retry by the failing caller) "
+                "x history of the connection (built and opened | two real Drivers: B built with channel_lock=True commandeers A built with / without "
+                "it and the callers use B, or the callers use the commandeered A built with it; also with an early end / loss + re-open + retry); "
                 "cancellation / NO_TERMINATE timeout / loss at every point of the operation in the thorough tier or when a tie is broken, at sampled "
-                "points — always one after the whole operation but its end — in the quick tier); "
+                "points — always one after the whole operation but its end — in the quick tier; "
                 "every transport call, lock wait, caller start and re-open is a scheduler decision, tasks left behind by an ended "
                 "operation are scheduled until the run ends; DFS over all decisions (exhaustive for every 2-caller scenario), "
                 "seeded random schedules where the DFS bound is hit; distinct = (scenario, schedule); non-trivial = >= 2 callers and "
@@ -770,7 +825,13 @@ def replay(path):
     from . import c19_impl as I
     scn = r["scenario"]
     obs = I.run_scenario(scn, r.get("choices", []))
-    print("scenario:", json.dumps({k: scn[k] for k in ("stack", "lock", "chunk", "callers", "faults") if k in scn}))
+    print("scenario:", json.dumps({k: scn[k] for k in ("stack", "lock", "commandeer", "chunk", "callers", "faults") if k in scn}))
+    if scn.get("commandeer"):
+        h = scn["commandeer"]
+        print("history : connection A built with channel_lock=%s has the session; connection B built with channel_lock=%s "
+              "calls B.commandeer(A); the callers then use connection %s" % (h["a_lock"], h["b_lock"], h["on"]))
+        print("lock    : created by the callers' connection: %s; its channel's channel_lock when the callers start: %s, at the end: %s"
+              % (obs["lock_created"], obs["lock_at_start"], obs["lock_at_end"]))
     print("schedule:", [c[0] for c in obs["choices"]])
     print("events  :", " ".join("%s%d" % (e[0], e[1]) + ("" if len(e) < 3 or e[0] in "wr" else ":" + str(e[2])) for e in obs["events"]))
     print("results :", obs["results"], "verdict:", obs["verdict"], "lock free at end:", obs["lock_free_at_end"])
@@ -796,7 +857,8 @@ MANIFEST = {
             "holder stalled on a silent device frees the lock) proved where the timeout ends the operation, the full statement REFUTED for thread "
             "pool + NO_TERMINATE_ON_TIMEOUT (known finding C19-thread-noterm-stalled-holder, replayed on the real code). (D) lock identity across "
             "re-opens: callers bind to the lock object the channel refers to when they enter their section, `channel.open()` may happen at any time; "
-            "Gen_Lock.v says (ast over the whole class bodies) that nothing but __init__ binds channel_lock, hence at most one holder and transport "
+            "Gen_Lock.v says (ast over the whole class bodies AND over every other module of the package — drivers incl. commandeer(), factory, transports: "
+            "any `x.channel_lock = ...` / del / setattr / delattr) that nothing but the channel's __init__ binds channel_lock, hence at most one holder and transport "
             "events only by that holder through any number of re-opens, failures and retries (reopen_mutual_exclusion); the statement for an "
             "arbitrary open() REFUTED (lock recreated on open: the caller queued on the old object and the retry on the new one hold together). Tie: the real Channel (threads) "
             "and AsyncChannel (tasks) run 2-4 concurrent callers of get_prompt/send_input/send_input_and_read/send_inputs_interact under a "
@@ -805,10 +867,15 @@ MANIFEST = {
             "task cancelled at a read / in the lock queue or timed out under NO_TERMINATE_ON_TIMEOUT while the others go on over the same connection "
             "(any task the ended operation left behind — shielded / detached readers — is scheduled like a caller and observed until the run ends), and with "
             "the connection lost, re-opened (transport.open + channel.open) and the operation retried by the failing caller while others are queued on the "
-            "lock (every lock object ever bound to channel_lock is instrumented; a waiter stays on the object it waits for); every trace is replayed "
+            "lock (every lock object ever bound to channel_lock is instrumented; a waiter stays on the object it waits for), and on two-connection "
+            "histories: real Driver / AsyncDriver objects, B built with channel_lock=True commandeers (the real commandeer()) A built with or without "
+            "channel locking, then 2-3 concurrent callers use B — or the commandeered A where A was built with the lock —, also with an operation ended "
+            "early / the connection lost, re-opened and the operation retried; every trace is replayed "
             "through the model's step function by vm_compute (check_run, proved sound; a retry is a further caller of the model; re-open runs also through "
             "layer D's oreplay) and judged by an independent oracle (no interleaving on the wire — per operation, a retry is its own operation —, each "
-            "caller's result and wire events = its solo run, lock free at the end, no deadlock, one holder at a time over all lock objects, and no "
+            "caller's result and wire events = its solo run, lock free at the end, no deadlock, one holder at a time over all lock objects, a connection "
+            "built with channel_lock=True still refers to a lock object of the right kind when its callers start and when the run ends — it serialises "
+            "its callers for its whole life, whatever it commandeered or was commandeered by —, and no "
             "transport call outside a lock section EVER: performed or still pending when the run ends, by the caller or by anything it left behind).",
     "note": "Partial in this sense: threading.Lock / asyncio.Lock themselves, contextlib's generator protocol and the interpreter are observed, "
             "not proved (the instrumented lock only delegates acquire(False)/locked()/release() to the lock the channel created; which waiter "
@@ -816,7 +883,15 @@ MANIFEST = {
             "real class whose only addition is a __setattr__ wrapping any lock object bound to channel_lock. Tasks left behind by an ended operation "
             "(orphaned readers) are outside the Coq model: the model has no such step, so it rejects those traces, and the verdict on them is the oracle's "
             "(oracle-only). Layer D abstracts operations to acquire / transport event / release and `open()` to its effect on the attribute; the re-open "
-            "of the scripted transport starts a fresh session (pending output of the old one dropped). Cancellation of a caller is an asyncio fault "
+            "of the scripted transport starts a fresh session (pending output of the old one dropped). Two-connection histories: the drivers are the real "
+            "base Driver / AsyncDriver (telnet / asynctelnet plugin objects, never opened) whose channel class is the instrumented subclass; connection A's session "
+            "is the scripted transport attached the way A.open() leaves it (no login dialogue is run), B.commandeer(A) is the real method (on_open hooks: none); "
+            "callers run on ONE of the two connections per scenario (callers spread over both connections have two locks by design: outside the property). The Coq "
+            "model has no commandeer step of its own: the callers' trace after it goes through check_run like any other, and layer D counts commandeer() as "
+            "one more [OOpen] (a life-cycle step outside a lock section, lock object left alone because the package-wide ast tie says nothing rebinds it); a "
+            "commandeer that UNBINDS the lock (channel_lock = None) is outside layer D's premise and its verdict is the oracle's (oracle-only). The package-wide "
+            "scan aborts on computed-name setattr / delattr / vars() / __dict__ / __setattr__ only in modules that name a channel anywhere; a module that never "
+            "names one (ssh_config.py) is taken not to reach a channel. Cancellation of a caller is an asyncio fault "
             "(threads cannot be cancelled; their analogue is the NO_TERMINATE timeout, whose worker finishes the operation before the caller returns). "
             "The shape translation over-approximates control "
             "flow and is syntactic (aliasing of the transport or of an I/O method aborts it). Timeouts: the thread-pool mechanism runs the "
